@@ -3,8 +3,8 @@ Oracle (metamorphic): the batch mode of the same build.  Library level: derived 
 AnalyzedSource vs AnalyzedSource::new(final text), errors() equality, tree invariants — evaluated in the adaptor after every
 step of a history in which step k+1 starts from the *updated* state of step k.  LSP level: last publishDiagnostics and a
 request panel of the edited document vs the same text opened fresh under another URI on the same server.
-Every state is compared: atomic valid->valid edits, the same edits typed key by key through syntactically broken texts, and
-single-token damages with their repair (see DESIGN.md section 5/C01); the witnesses of the divergences repaired in the build
+Every state is compared: atomic valid->valid edits, the same edits typed key by key through syntactically broken texts,
+single-token damages with their repair, and line/block editor commands (duplicate, delete, move, comment, cut/paste, join) (see DESIGN.md section 5/C01); the witnesses of the divergences repaired in the build
 phase are replayed as regression tests."""
 import json, os, random
 from ..core import Adaptor, Part, pmap, NCPU, server_bin, adaptor_bin, VERIF
@@ -91,6 +91,111 @@ def make_damage_history(rng):
         steps.append([ch]); cur = edits.apply_change(cur, ch)
     if rng.random() < .5: steps += [[u] for u in reversed(undo)]
     return text, steps
+
+
+def make_block_history(rng):
+    """line- and block-oriented editing of a valid program, the way an editor's commands do it: duplicate / delete / move a run of
+    lines, comment a line out and in again, cut a span and paste it elsewhere, paste a span copied from elsewhere, indent a run of
+    lines; half of the time everything is undone in reverse order. Most states are syntactically broken; every state is compared."""
+    P = gen.generate(rng.getrandbits(32), size=rng.choice([1, 2, 2, 3, 4]), depth=rng.choice([1, 2, 3]), edepth=rng.choice([1, 2]), docs=.2, stmt_comments=.1,
+                     typed=rng.random() < .7, max_stmts=rng.choice([2, 3, 4]))
+    eol = rng.choice(["\n", "\n", "\r\n"])
+    text = layout.layout(P, rng, rng.choice(["spaced", "lines", "lines", "random"]), eol)
+    cur = text.encode(); steps = []; undo = []; labels = []
+
+    def lines(b):
+        out = []; a = 0
+        while a < len(b):
+            e = b.find(b"\n", a); e = len(b) if e < 0 else e + 1
+            out.append((a, e)); a = e
+        return out or [(0, 0)]
+
+    def do(batch, label):
+        nonlocal cur
+        un = []
+        for (a, e, new) in batch:
+            nb = new.encode()
+            un.append([a, a + len(nb), cur[a:e].decode()])
+            cur = cur[:a] + nb + cur[e:]
+        steps.append([list(c) for c in batch]); undo.append(list(reversed(un))); labels.append(label)
+
+    def charpos(b, i):
+        while 0 < i < len(b) and (b[i] & 0xC0) == 0x80: i -= 1
+        return i
+
+    for _ in range(rng.randint(1, 5)):
+        ls = lines(cur)
+        i = rng.randrange(len(ls)); j = min(len(ls), i + rng.choice([1, 1, 1, 2, 3, 6]))
+        a, e = ls[i][0], ls[j - 1][1]
+        blk = cur[a:e].decode()
+        op = rng.choice(["dup", "del", "move", "comment", "uncomment", "cutpaste", "pastecopy", "indent", "join"])
+        if op == "dup":
+            if not blk.endswith("\n"): blk2 = eol + blk
+            else: blk2 = blk
+            do([(e, e, blk2)], "block/dup")
+        elif op == "del":
+            do([(a, e, "")], "block/del")
+        elif op == "move":
+            k = rng.randrange(len(ls)); t = ls[k][0]
+            if a <= t <= e: continue
+            if not blk.endswith("\n"): continue
+            if t < a: batch = [(a, e, ""), (t, t, blk)]
+            else: batch = [(t, t, blk), (a, e, "")]
+            if rng.random() < .5: do(batch, "block/move")
+            else:
+                do(batch[:1], "block/move1"); do(batch[1:], "block/move2")
+        elif op == "comment":
+            do([(ls[i][0], ls[i][0], "//")], "block/comment")
+        elif op == "uncomment":
+            cs = [l for l in ls if cur[l[0]:l[1]].lstrip(b" \t").startswith(b"//")]
+            if not cs: continue
+            l = rng.choice(cs); q = cur.find(b"//", l[0])
+            do([(q, q + 2, "")], "block/uncomment")
+        elif op in ("cutpaste", "pastecopy"):
+            x, y = sorted(charpos(cur, rng.randrange(len(cur) + 1)) for _ in range(2))
+            if rng.random() < .6: y = charpos(cur, min(y, x + rng.choice([2, 5, 12, 30])))
+            if y <= x: continue
+            span = cur[x:y].decode()
+            t = charpos(cur, rng.randrange(len(cur) + 1))
+            if op == "pastecopy": do([(t, t, span)], "block/pastecopy")
+            else:
+                if x < t < y: continue
+                do([(x, y, "")], "block/cut")
+                t2 = t if t <= x else t - (y - x)
+                do([(t2, t2, span)], "block/paste")
+        elif op == "indent":
+            batch = []
+            for (la, le) in reversed(ls[i:j]): batch.append((la, la, rng.choice(["  ", "\t"])))
+            do(batch, "block/indent")
+        elif op == "join":
+            # the line break at the end of line i is replaced by a blank (or by nothing)
+            le = ls[i][1]
+            if le == 0 or cur[le - 1:le] != b"\n": continue
+            s0 = le - 2 if cur[le - 2:le] == b"\r\n" else le - 1
+            do([(s0, le, rng.choice([" ", ""]))], "block/join")
+    if rng.random() < .5:
+        for un, l in zip(reversed(undo), reversed(labels)):
+            steps.append(un); labels.append(l + "-undo")
+    return text, steps, labels
+
+
+def worker_block(args):
+    seed, nhist = args
+    rng = random.Random("C01/block/%s" % seed)
+    ad = Adaptor(); part = Part()
+    for it in range(nhist):
+        text0, steps, labels = make_block_history(rng)
+        if not steps: continue
+        sc = {"kind": "history", "text": text0, "steps": steps, "labels": labels}
+        res = ad.call(op="history", text=text0, steps=steps)
+        if res.get("div") or res.get("update_panic") is not None: sc["steps"] = steps[:res.get("step", (res.get("div") or {}).get("step", len(steps))) + 1]
+        ok = judge_history(part, res, sc, labels + ["?"])
+        part.cnt("block_steps", res.get("steps_done", 0))
+        if ok:
+            for l in labels: part.see(l)
+            if it == 0: part.sample({"part": "block-editing history", "initial_text": text0[:120], "operations": labels[:6], "changes": steps[:3]}, 1)
+    ad.close()
+    return part
 
 
 def worker_damage(args):
@@ -292,6 +397,8 @@ def run(ctx):
     for p in pmap(worker_typing, [("%s/%d" % (ctx.seed, i), nt) for i in range(NCPU)]): ctx.merge(p)
     nd = 400 if ctx.quick else 20000
     for p in pmap(worker_damage, [("%s/%d" % (ctx.seed, i), nd) for i in range(NCPU)]): ctx.merge(p)
+    nb = 150 if ctx.quick else 8000
+    for p in pmap(worker_block, [("%s/%d" % (ctx.seed, i), nb) for i in range(NCPU)]): ctx.merge(p)
     nl = 16 if ctx.quick else 500
     for p in pmap(worker_lsp, [("%s/%d" % (ctx.seed, i), nl, 10) for i in range(NCPU)]): ctx.merge(p)
     c = ctx.extra.get("counters", {})
@@ -302,15 +409,18 @@ def run(ctx):
                               "well-typed and ill-typed programs. (2) TYPING: the same kinds of edits delivered as keystrokes (ranges removed by selection, backspace or delete key; new text typed character "
                               "by character or pasted in chunks of up to 5 characters, with occasional typos): most intermediate texts are syntactically broken; every step is compared. "
                               "(3) DAMAGE: 1-4 single-token damages (delete / insert / replace a lexeme) of a valid program, half of the time repaired again in reverse order; every step is compared. "
-                              "(4) the witnesses of the divergences that were repaired in the build phase (all of them in broken states) are replayed as regression tests.")
+                              "(4) BLOCK EDITING: 1-5 editor commands on runs of lines and spans (duplicate, delete, move in one or two notifications, comment out / in, cut and paste elsewhere, "
+                              "paste a copied span at an arbitrary place, indent, join lines), half of the time undone in reverse order; every step is compared. "
+                              "(5) the witnesses of the divergences that were repaired in the build phase (all of them in broken states) are replayed as regression tests.")
     ctx.rule = "see sub_space; every step compared; distinct_nontrivial = distinct (edit class / sub-class) labels occurring in histories that were compared to the end"
     ctx.assumptions = ["AnalyzedSource::new is the reference for AnalyzedSource::update (metamorphic oracle: batch mode of the same build)",
-                       "broken states are reached by typing and by single-token damage; other routes into broken text (large pastes of garbage) are driven by C02 for crashes only"]
+                       "broken states are reached by typing, by single-token damage and by line/block commands; other routes into broken text (pastes of foreign garbage) are driven by C02 for crashes only"]
     ctx.floor("evaluations", ctx.evaluations, 10000)
     ctx.floor("edit classes exercised", len([k for k in c if k.startswith("edit:")]), 15)
     ctx.floor("LSP panel comparisons", c.get("panel_comparisons", 0), 100)
     ctx.floor("keystroke steps", c.get("keystroke_steps", 0), 20000)
     ctx.floor("single-token damage steps", c.get("damage_steps", 0), 3000)
+    ctx.floor("block-editing steps", c.get("block_steps", 0), 5000)
 
 
 def replay(ctx, sc):
